@@ -285,6 +285,10 @@ package jet
 //@   props C07 C13 C10 C06 C12
 //@   requires RtOK(st) && node != nil && WF(node)
 //@   modifies @Interp
+//@   callsite (*Runtime).evalPrimaryExpressionGroup 1 requires [ternary-evaluates-its-condition-first] {C04} node == as(caller.node, "*TernaryExprNode").Boolean
+//@   callsite (*Runtime).evalPrimaryExpressionGroup 2 requires [ternary-evaluates-the-first-branch-only-when-true] {C04} node == as(caller.node, "*TernaryExprNode").Left && lastret("isTrue", 0)
+//@   callsite (*Runtime).evalPrimaryExpressionGroup 3 requires [ternary-evaluates-the-second-branch-only-when-false] {C04} node == as(caller.node, "*TernaryExprNode").Right && !lastret("isTrue", 0)
+//@   callsite (*Runtime).evalPrimaryExpressionGroup count 9
 //@   ensures [balanced] SameS(st)
 //@   anypanic
 //@   exsures [runtime-valid-on-panic] RtX(st)
@@ -292,6 +296,7 @@ package jet
 //@   props C07 C13 C10 C12
 //@   requires RtOK(st) && node != nil && WF(iface(node, "*NumericComparativeExprNode"))
 //@   modifies @Interp
+//@   ensures [relational-operators-yield-a-bool] {C04} RvValid(result) && RvKind(result) == 1
 //@   check [a-float-operand-makes-the-comparison-floating-point] {C04} KFloat(RvKind(lastret("(*Runtime).evalPrimaryExpressionGroup", 0))) ==> ncalls("toInt") == 0 && ncalls("toUint") == 0
 //@   ensures [balanced] SameS(st)
 //@   anypanic
@@ -300,6 +305,11 @@ package jet
 //@   props C07 C13 C10 C12
 //@   requires RtOK(st) && node != nil && WF(iface(node, "*LogicalExprNode"))
 //@   modifies @Interp
+//@   ensures [logical-operators-yield-a-bool] {C04} RvValid(result) && RvKind(result) == 1
+//@   callsite (*Runtime).evalPrimaryExpressionGroup 0 requires [left-operand-first] {C04} node == caller.node.Left
+//@   callsite (*Runtime).evalPrimaryExpressionGroup 1 requires [right-operand-of-and-only-after-a-true-left] {C04} node == caller.node.Right && lastret("isTrue", 0)
+//@   callsite (*Runtime).evalPrimaryExpressionGroup 2 requires [right-operand-of-or-only-after-a-false-left] {C04} node == caller.node.Right && !lastret("isTrue", 0)
+//@   callsite (*Runtime).evalPrimaryExpressionGroup count 3
 //@   ensures [balanced] SameS(st)
 //@   anypanic
 //@   exsures [runtime-valid-on-panic] RtX(st)
@@ -307,6 +317,7 @@ package jet
 //@   props C07 C13 C10 C12
 //@   requires RtOK(st) && node != nil && WF(iface(node, "*ComparativeExprNode"))
 //@   modifies @Interp
+//@   ensures [equality-yields-a-bool] {C04} RvValid(result) && RvKind(result) == 1 && RvBool(result) == (lastret("checkEquality", 0) == (node.binaryExprNode.Operator.typ != itemNotEquals))
 //@   ensures [balanced] SameS(st)
 //@   anypanic
 //@   exsures [runtime-valid-on-panic] RtX(st)
@@ -618,10 +629,11 @@ package jet
 //@ pred PoolInv(st *Runtime) := st != nil && st.escapeeWriter != nil && st.scope != nil && st.scope.parent == nil && st.scope.variables == nil && st.scope.blocks == nil && !RvValid(st.context) && st.content == nil
 
 //@ func (*sync.Pool).Get
-//@   trusted sync library; for pool_State the postcondition is the pool invariant: every value ever put into pool_State (by its New function init$1 or by (*Runtime).recover, the only Put site) satisfies PoolInv
+//@   trusted sync library; for pool_State the postcondition is the pool invariant: every value ever put into pool_State (by its New function init$1 or by (*Runtime).recover, the only Put site) satisfies PoolInv; the only other pools of the package are the ranger pools (poolsByKind), whose New functions and whose only Put site (getRanger's cleanup) handle pooledRangers
 //@   params p
 //@   nopanic
 //@   ensures p == gaddr(pool_State) ==> istype(result, "*Runtime") && PoolInv(as(result, "*Runtime")) && allocated(as(result, "*Runtime"))
+//@   ensures p != gaddr(pool_State) ==> implementsI(result, "pooledRanger")
 //@ func (*sync.Pool).Put
 //@   trusted sync library
 //@   params p, x
@@ -733,6 +745,7 @@ package jet
 //@ ufunc ParamT(reflect.Type, int) reflect.Type
 //@ axiom forallT(t, "reflect.Type", forallT(k, "int", ParamT(t, k) == ite(TVariadic(t) && k >= TNumIn(t) - 1, TElem(TIn(t, TNumIn(t) - 1)), TIn(t, k))))
 //@ axiom forallT(v, "reflect.Value", forallT(t, "reflect.Type", RvTypeOf(RvConv(v, t)) == t && TAssign(t, t)))
+//@ axiom forallT(i, "interface{}", istype(i, "bool") ==> RvValid(RvOf(i)) && RvKind(RvOf(i)) == 1 && RvBool(RvOf(i)) == as(i, "bool"))
 //@ axiom funcType != nil && cachedStructsFieldIndex != nil && ioutil.Discard != nil
 //@ axiom forallT(v, "reflect.Value", RvKind(v) == 19 && !RvIsNil(v) && istype(RvInterface(v), "Func") ==> as(RvInterface(v), "Func") != nil)
 //@ axiom forallT(t, "reflect.Type", forallT(u, "reflect.Type", TKind(t) == 23 && TKind(TElem(t)) == 8 && TKind(u) == 24 ==> TConv(t, u)))
